@@ -256,18 +256,45 @@ def derive(repo):
         raise TranslateError("%s: class Mesh not found" % rel)
     mesh_observable = any(_src(b).split(".")[-1] == "Observable" for b in C["Mesh"].bases)
     clear, notify = {}, {}
-    for mop, (name, setter) in {"MTranslate": ("Translate", False), "MRotate": ("Rotate", False),
-                                "MSymmetry": ("Symmetry", False), "MCoordSet": ("coord", True)}.items():
-        fn = _method(C["Mesh"], name, setter=setter, rel=rel)
-        b = _body(fn)
-        allgroups = False
-        for s in b:
+    def mesh_effects(fn, seen):
+        """(assigns groupElem.coord for ALL groups, notifies) for the body of a Mesh method, following -- transitively,
+        like helper calls -- unconditional `self.<prop> = ...` into the setter of a property of the same class and
+        unconditional `self.<helper>(...)` calls into that method"""
+        if fn.name + str(_is_setter(fn, fn.name)) in seen:
+            return False, False
+        seen = seen | {fn.name + str(_is_setter(fn, fn.name))}
+        allg = noti = False
+        for s in _body(fn):
             if isinstance(s, ast.For) and _src(s.iter) == "self.dict_groupElem.values()":
                 v = _src(s.target)
                 if any(isinstance(t, ast.Assign) and _src(t.targets[0]) == v + ".coord" for t in s.body):
-                    allgroups = True
+                    allg = True
+            if isinstance(s, ast.Expr) and _is_call(s, "self", "_Notify"):
+                noti = True
+            callee = None
+            if isinstance(s, ast.Assign) and len(s.targets) == 1 and isinstance(s.targets[0], ast.Attribute) \
+                    and _src(s.targets[0].value) == "self":
+                try:
+                    callee = _method(C["Mesh"], s.targets[0].attr, setter=True, rel=rel)
+                except TranslateError:
+                    callee = None
+            elif isinstance(s, ast.Expr) and isinstance(s.value, ast.Call) and isinstance(s.value.func, ast.Attribute) \
+                    and _src(s.value.func.value) == "self" and s.value.func.attr != "_Notify":
+                try:
+                    callee = _method(C["Mesh"], s.value.func.attr, rel=rel)
+                except TranslateError:
+                    callee = None
+            if callee is not None:
+                a2, n2 = mesh_effects(callee, seen)
+                allg, noti = allg or a2, noti or n2
+        return allg, noti
+
+    for mop, (name, setter) in {"MTranslate": ("Translate", False), "MRotate": ("Rotate", False),
+                                "MSymmetry": ("Symmetry", False), "MCoordSet": ("coord", True)}.items():
+        fn = _method(C["Mesh"], name, setter=setter, rel=rel)
+        allgroups, notifies = mesh_effects(fn, frozenset())
         clear[mop] = allgroups and group_clear
-        notify[mop] = bool(_stmts_calling(b, "self", "_Notify")) and mesh_observable and observers_ok
+        notify[mop] = notifies and mesh_observable and observers_ok
         L["t_mesh_clear." + mop] = L["t_mesh_notify." + mop] = "%s:%d" % (rel, fn.lineno)
     F["t_mesh_clear"], F["t_mesh_notify"] = clear, notify
 
